@@ -8,7 +8,8 @@
 
 #define H_MAXSEG 4096
 typedef struct { size_t len; int dir; } hseg;              /* dir: ZSTD_e_continue / flush / end ; the last segment always ends */
-typedef struct { hseg seg[H_MAXSEG]; int nseg; size_t outPat[8]; int nOut; int api; /* 0 compressStream2, 1 legacy compressStream/flushStream/endStream */ char desc[160]; } hscript;
+typedef struct { hseg seg[H_MAXSEG]; int nseg; size_t outPat[8]; int nOut; int api; /* 0 compressStream2, 1 legacy compressStream/flushStream/endStream */ char desc[160];
+                 int chgAtSeg, chgLevel;   /* chgAtSeg > 0: before that segment the caller changes ZSTD_c_compressionLevel (allowed mid-frame with nbWorkers >= 1: applies to the next job) */ } hscript;
 
 typedef struct { size_t inBefore, inAfter, inSize, outBefore, outAfter, outSize; size_t ret; int dir; } hcall;
 typedef struct { hcall* c; size_t n, cap; size_t flushPoints[256]; size_t flushIn[256]; int nFlush; } hlog;
@@ -60,6 +61,7 @@ static size_t h_run_script(ZSTD_CCtx* c, const uint8_t* src, size_t n, const hsc
     for (int s = 0; s < S->nseg; s++) {
         ZSTD_inBuffer in = { src + inPos, S->seg[s].len, 0 };
         int const dir = S->seg[s].dir;
+        if (S->chgAtSeg > 0 && s == S->chgAtSeg) (void)ZSTD_CCtx_setParameter(c, ZSTD_c_compressionLevel, S->chgLevel);
         for (;;) {
             size_t const prevIn = in.pos;
             size_t const room = S->outPat[oi++ % S->nOut];
